@@ -238,7 +238,19 @@ def b64_tables(ctx, rule="B64-TABLE"):
     pair = [x for x in fu if re.fullmatch(r"\(\(c:14336 Add! \(call@(\d+):internal::streamname::to_b64@Some\.0 Shl c:6\)\)\.0 Add! call@(\d+):internal::streamname::to_b64@Some\.0\)\.0", x)]
     single = [x for x in fu if re.fullmatch(r"\(c:18432 Add! call@\d+:internal::streamname::to_b64@Some\.0\)\.0", x)]
     okp = len(pair) == 1 and len(single) == 1 and len(fu) == 2
-    if okp:
+    if not pair and len(single) == 1 and len(fu) == 2:
+        # the second character's value obtained as chars.peek().and_then(|&c| to_b64(c))
+        from ..lib import lifted_closures
+        alt = [x for x in fu if re.fullmatch(r"\(\(c:14336 Add! \(call@(\d+):std::option::Option::<T>::and_then@Some\.0 Shl c:6\)\)\.0 Add! call@(\d+):internal::streamname::to_b64@Some\.0\)\.0", x)]
+        if len(alt) == 1:
+            m = re.fullmatch(r"\(\(c:14336 Add! \(call@(\d+):.*Shl c:6\)\)\.0 Add! call@(\d+):.*", alt[0])
+            at, lo = int(m.group(1)), int(m.group(2))
+            recv = S.val(f.blocks[at]["term"]["args"][0])
+            clos = [L for L in lifted_closures(prog, f, S) if L.call_block == at and any(cname(prog, t) == SN + "to_b64" and re.fullmatch(r"[&*]*p2", L.SC.val(t["args"][0])) for b, t in L.fn.calls())]
+            lo_arg = S.val(f.blocks[lo]["term"]["args"][0])
+            okp = "peek" in recv and len(clos) == 1 and "Iterator>::next@Some.0" in lo_arg
+            pair = []
+    elif okp:
         m = re.fullmatch(r"\(\(c:14336 Add! \(call@(\d+):.*Shl c:6\)\)\.0 Add! call@(\d+):.*", pair[0])
         hi, lo = int(m.group(1)), int(m.group(2))
         # lo comes from the current char (next), hi from the peeked following char
